@@ -76,10 +76,8 @@ NarrowIdx(v) ==
   ELSE SignExt(v) % n
 
 (* action records as the harness writes them *)
-SearchAct(v) == [op |-> "search", k |-> [t |-> "hash", b |-> ToLimbs(v)], neg |-> FALSE,
-                 h |-> ToLimbs(v)]
-ModAct(t, pat, isNeg) == [op |-> "simple", k |-> [t |-> t, b |-> ToLimbs(pat)], neg |-> isNeg,
-                          h |-> ToLimbs(pat)]
+SearchAct(v)   == [op |-> "search", k |-> [t |-> "hash", b |-> ToLimbs(v)], h |-> ToLimbs(v)]
+ModAct(t, pat) == [op |-> "simple", k |-> [t |-> t, b |-> ToLimbs(pat)], h |-> ToLimbs(pat)]
 
 AInit ==
   /\ \E c \in 1..MaxShards : InitWith(c) /\ nps = Table(c)
@@ -99,9 +97,9 @@ Accepted == RouteOK(SearchAct(x), Idx(x))
 
 (* ... and the modulo route for unsigned, signed and narrow signed keys *)
 ModAccepted ==
-  /\ RouteOK(ModAct("u64", x, FALSE), ModIdx(x, FALSE))
-  /\ RouteOK(ModAct("i64", x, Signed(x) < 0), ModIdx(x, TRUE))
-  /\ x < HalfSpace => RouteOK(ModAct("i8", SignExt(x), x >= HalfSpace \div 2), NarrowIdx(x))
+  /\ RouteOK(ModAct("u64", x), ModIdx(x, FALSE))
+  /\ RouteOK(ModAct("i64", x), ModIdx(x, TRUE))
+  /\ x < HalfSpace => RouteOK(ModAct("i8", SignExt(x)), NarrowIdx(x))
 
 (* the table: ascending, no wrap-around of y*(i+1), ends at Max *)
 TableOK ==
@@ -116,6 +114,12 @@ Monotone  == x < Max => Idx(x) <= Idx(x + 1)
 (* x lies in the interval of exactly one shard, and that is the one returned *)
 Lower(j)   == IF j = 0 THEN 0 ELSE nps[j] + 1
 ExactlyOne == {j \in 0..(n - 1) : Lower(j) <= x /\ x <= nps[j + 1]} = {Idx(x)}
+(* The same in O(1) per state (ExactlyOne costs O(n) and is kept for the     *)
+(* thorough configuration): x lies in the interval of the shard returned.    *)
+(* The intervals [Lower(j), nps[j+1]] start at 0, follow each other without  *)
+(* gap by construction and, the table being ascending and ending at Max      *)
+(* (TableOK), are pairwise disjoint and cover 0..Max.                        *)
+InOwn == Lower(Idx(x)) <= x /\ x <= nps[Idx(x) + 1]
 (* both ends of the space are owned by the first and the last shard *)
 Ends == (x = 0 => Idx(x) = 0) /\ (x = Max => Idx(x) = n - 1)
 
